@@ -110,36 +110,43 @@ theorem name_roundtrip_iff (fmt dfmt : Format) (custom : Option Name) (name t : 
         have hin := (compSuffixes_head_in_uncompTable fmt s h).1
         have := firstMatch_none hf (s, []) hin
         simp [hts] at this
-        exact absurd this hlen
+        exact absurd this hname.1
     | some nu =>
       obtain ⟨n, u⟩ := nu
       obtain ⟨e, he, h1, h2⟩ := firstMatch_some hf
       obtain ⟨b, hb, _, hbn⟩ := testSuffix_pos (h1 ▸ h2 : testSuffix e (name ++ s) ≠ 0)
       have hn : n = b.length := by rw [← h1, hbn]
       have htake : (name ++ s).take n = b := by rw [hb, hn]; simp
-      simp only [htake, Option.some.injEq, Prod.mk.injEq, not_exists, not_and, not_not]
-      constructor
-      · intro hbu n' u' hn' hu'
-        subst hn'; subst hu'
-        -- b ++ u = name and name ++ s = b ++ e  ⇒  u ++ s = e  ⇒  u = []
-        have : b ++ (u ++ s) = b ++ e := by rw [← List.append_assoc, hbu, hb]
-        have hue : u ++ s = e := List.append_cancel_left this
-        rcases uncompTable_repl_len (e, u) he with hu | hl
-        · simp at hu; subst hu
-          simp at hbu
-          exact ⟨by rw [hn, hbu], rfl⟩
-        · have := congrArg List.length hue
-          simp at this hl
-          have : s.length = 0 := by omega
-          exact absurd (List.length_eq_zero_iff.mp this) hsne
-      · intro h
-        obtain ⟨hn', hu'⟩ := h n u rfl rfl
-        subst hu'
-        have hbl : b.length = name.length := by omega
-        have : b = name := by
+      simp only [htake]
+      have key : b ++ u = name ↔ (n = name.length ∧ u = []) := by
+        constructor
+        · intro hbu
+          -- b ++ u = name and name ++ s = b ++ e  ⇒  u ++ s = e  ⇒  u = []
+          have : b ++ (u ++ s) = b ++ e := by rw [← List.append_assoc, hbu, hb]
+          have hue : u ++ s = e := List.append_cancel_left this
+          rcases uncompTable_repl_len (e, u) he with hu | hl
+          · simp only at hu; subst hu
+            simp only [List.append_nil] at hbu
+            exact ⟨by rw [hn, hbu], rfl⟩
+          · have hlen2 := congrArg List.length hue
+            simp only [List.length_append] at hlen2
+            simp only at hl
+            have : s.length = 0 := by omega
+            exact absurd (List.length_eq_zero_iff.mp this) hsne
+        · rintro ⟨hn', hu'⟩
+          subst hu'
+          have hbl : b.length = name.length := by omega
           have h3 := List.append_inj hb.symm hbl
-          exact h3.1
-        simp [this]
+          simp [h3.1]
+      constructor
+      · intro h
+        rintro ⟨n', u', heq, hne⟩
+        cases heq
+        exact hne (key.mp (Option.some.inj h))
+      · intro h
+        by_cases hk : n = name.length ∧ u = []
+        · exact congrArg some (key.mpr hk)
+        · exact absurd ⟨n, u, rfl, hk⟩ h
 
 /-- **name_roundtrip.** The target name chosen when compressing maps back to the original name when decompressing,
     unless a built-in suffix shadows the cut (`shadow_characterised` says exactly when that is). -/
@@ -216,7 +223,8 @@ theorem shadow_characterised (dfmt : Format) (name s : Name)
       rintro ⟨hl, hu⟩
       rw [hts] at hl
       rcases hru with h | h
-      · simp at hl; exact h (List.length_eq_zero_iff.mp hl)
+      · simp only [List.length_append] at hl
+        exact h (List.length_eq_zero_iff.mp (by omega))
       · exact h hu
     · obtain ⟨⟨e, u⟩, he, q, b, hq, heq, hnb, hgb⟩ := hB
       have hts : testSuffix e (name ++ s) = b.length := by
@@ -229,7 +237,7 @@ theorem shadow_characterised (dfmt : Format) (name s : Name)
       refine ⟨hr, _, _, firstMatch_of_match he hpos, ?_⟩
       rintro ⟨hl, _⟩
       rw [hts, hnb] at hl
-      simp at hl
+      simp only [List.length_append] at hl
       exact hq (List.length_eq_zero_iff.mp (by omega))
 
 /-- Class B is the property's stated exception: it needs a **dot-less** custom suffix. -/
@@ -294,8 +302,8 @@ theorem compressed_name_shape (fmt : Format) (custom : Option Name) (name t : Na
   refine ⟨s, hsne, rfl, ?_⟩
   intro h
   have := congrArg List.length h
-  simp at this
-  exact hsne (List.length_eq_zero_iff.mp this)
+  simp only [List.length_append] at this
+  exact hsne (List.length_eq_zero_iff.mp (by omega))
 
 theorem compressed_none_iff (fmt : Format) (custom : Option Name) (name : Name) :
     compressedName fmt custom name = none ↔
@@ -341,10 +349,10 @@ theorem unknown_suffix_skipped (dfmt : Format) (custom : Option Name) (t : Name)
     | none =>
       have := firstMatch_none hf
       cases custom with
-      | none => simp; exact this
+      | none => simp; exact fun a b hab => this (a, b) hab
       | some c =>
         by_cases h : testSuffix c t = 0
-        · simp [h]; exact this
+        · simp [h]; exact fun a b hab => this (a, b) hab
         · simp [h]
     | some nu =>
       obtain ⟨n, u⟩ := nu
@@ -397,9 +405,7 @@ theorem at_least_one_char (dfmt : Format) (custom : Option Name) (t r : Name) (h
       rw [hf] at h
       obtain ⟨e, he, h1, h2⟩ := firstMatch_some hf
       simp only [Option.some.injEq] at h
-      have hne : e ≠ u := by
-        intro h; subst h
-        revert he; decide
+      have hne : e ≠ u := uncompTable_repl_ne (e, u) he
       exact key e u (h1 ▸ h2) (uncompTable_no_slash (e, u) he).2.1 hne (by rw [h1]; exact h.symm)
 
 /-- **suffix_set_rejects.** `suffix_set` is fatal exactly for the empty suffix and for suffixes containing '/';
@@ -407,10 +413,12 @@ theorem at_least_one_char (dfmt : Format) (custom : Option Name) (t r : Name) (h
 theorem suffix_set_rejects (s : Name) :
     (suffixSet s = none ↔ s = [] ∨ slash ∈ s) ∧ (∀ c, suffixSet s = some c → c = s ∧ ValidSuffix (some c)) := by
   unfold suffixSet
+  have hb : (s.isEmpty || s.contains slash) = true ↔ (s = [] ∨ slash ∈ s) := by
+    simp [List.isEmpty_iff]
   constructor
-  · cases s with
-    | nil => simp
-    | cons a l => simp [List.contains_iff_mem]
+  · by_cases h : (s.isEmpty || s.contains slash) = true
+    · rw [if_pos h]; simp only [true_iff]; exact hb.mp h
+    · rw [if_neg h]; simp only [reduceCtorEq, false_iff]; exact fun h' => h (hb.mpr h')
   · intro c h
     by_cases hb : (s.isEmpty || s.contains slash) = true
     · rw [if_pos hb] at h; cases h
@@ -419,8 +427,8 @@ theorem suffix_set_rejects (s : Name) :
       refine ⟨rfl, ?_⟩
       intro c' hc'
       cases hc'
-      simp only [Bool.or_eq_true, not_or, List.isEmpty_iff, List.contains_iff_mem] at hb
-      exact ⟨hb.1, by simpa using hb.2⟩
+      have hb' := fun h' => hb (‹(s.isEmpty || s.contains slash) = true ↔ _›.mpr h')
+      exact ⟨fun h' => hb' (Or.inl h'), fun h' => hb' (Or.inr h')⟩
 
 /-! ## source refusal, overwrite protection, metadata -/
 
@@ -443,8 +451,8 @@ theorem src_core_exact : ∀ (kind : Kind) (symlink setuid setgid sticky multi c
       (kind ≠ .missing ∧ kind ≠ .sock ∧ kind ≠ .dir ∧ (kind = .reg ∨ c = true) ∧
        (symlink = false ∨ c = true ∨ fo = true ∨ k = true) ∧
        ((setuid = false ∧ setgid = false ∧ sticky = false ∧ multi = false) ∨ c = true ∨ fo = true ∨ k = true)) := by
-  intro kind
-  cases kind <;> decide
+  intro kind symlink setuid setgid sticky
+  cases kind <;> cases symlink <;> cases setuid <;> cases setgid <;> cases sticky <;> decide
 
 /-- **src_refusal_exact.** A file is processed iff the documented predicate holds
     (5 kinds × 2^8 combinations of link/mode/flag bits, kernel-decided; the same table is measured on the real
